@@ -4,36 +4,56 @@ From LS Require Import Base.Sx Lease.Store Lease.Client Lease.Sched Lease.Entry.
 Import ListNotations.
 Open Scope Z_scope.
 
-(** ** The runner's entry points on the two histories that matter (in-Coq
-    evaluation of exactly the definitions that are extracted) *)
+(** ** The runner's entry points on the histories that matter (in-Coq
+    evaluation of exactly the definitions that are extracted).  Times in ns. *)
 Definition sxl (l : list Z) : sx := SL (map SA l).
+Definition s10 : Z := 10000000000.   (* 10 s *)
+Definition cl2 (p1 p2 : list Z) : sx := SL [SL [SA 1; SA s10; sxl p1]; SL [SA 2; SA s10; sxl p2]].
+Definition tick (d : Z) : sx := SL [SA d].
 
 (** F6 on the executable model: A acquire, A release, B acquire -> generation 1 twice *)
 Example lease_run_f6 :
-  lease_run (SL [SL [SL [SA 1; SA 1; sxl [0; 2]]; SL [SA 2; SA 1; sxl [0]]]; sxl [0; 0; 0; 1; 1]])
-  = SL [SL [SL [SA 0; SA 0; sxl [0; 1; 1; 1]]; SL [SA 0; SA 2; sxl [0]]; SL [SA 1; SA 0; sxl [0; 1; 2; 1]]];
-        sxl [1; 2; 1]].
+  lease_run (SL [cl2 [0; 2] [0]; sxl [0; 0; 0; 1; 1]])
+  = SL [SL [SL [SA 0; SA 0; sxl [0; 1; 1; s10]; SA 0]; SL [SA 0; SA 2; sxl [0]; SA 0]; SL [SA 1; SA 0; sxl [0; 1; 2; s10]; SA 0]];
+        sxl [1; 2; s10]].
 Proof. vm_compute. reflexivity. Qed.
 
 Example oracle_f6 :
-  lease_gen_strict_ok (SL [SL [SL [SA 0; SA 0; sxl [0; 1; 1; 1]]; SL [SA 0; SA 2; sxl [0]]; SL [SA 1; SA 0; sxl [0; 1; 2; 1]]]]) = SA 5
-  /\ lease_mutex_ok (SL [SL [SL [SA 0; SA 0; sxl [0; 1; 1; 1]]; SL [SA 0; SA 2; sxl [0]]; SL [SA 1; SA 0; sxl [0; 1; 2; 1]]]]) = SA 1.
+  let evs := SL [SL [SL [SA 0; SA 0; sxl [0; 1; 1; s10]; SA 0]; SL [SA 0; SA 2; sxl [0]; SA 0]; SL [SA 1; SA 0; sxl [0; 1; 2; s10]; SA 0]]] in
+  lease_gen_strict_ok evs = SA 5 /\ lease_mutex_ok evs = SA 1.
 Proof. split; vm_compute; reflexivity. Qed.
 
-(** takeover of an expired lease: B (live) over A (born expired); A's renew is refused *)
-Example lease_run_takeover :
-  lease_run (SL [SL [SL [SA 1; SA 0; sxl [0; 1]]; SL [SA 2; SA 1; sxl [0]]]; sxl [0; 0; 1; 1; 0]])
-  = SL [SL [SL [SA 0; SA 0; sxl [0; 1; 1; 0]]; SL [SA 1; SA 0; sxl [0; 2; 2; 1]]; SL [SA 0; SA 1; sxl [4]]];
-        sxl [2; 2; 1]].
+(** 1 ns after expiry: B takes over (generation 2); A's pending renew is refused *)
+Example lease_run_takeover_after_expiry :
+  lease_run (SL [cl2 [0; 1] [0]; SL [SA 0; SA 0; tick (s10 + 1); SA 1; SA 1; SA 0]])
+  = SL [SL [SL [SA 0; SA 0; sxl [0; 1; 1; s10]; SA 0];
+            SL [SA 1; SA 0; sxl [0; 2; 2; 2 * s10 + 1]; SA (s10 + 1)];
+            SL [SA 0; SA 1; sxl [4]; SA (s10 + 1)]];
+        sxl [2; 2; 2 * s10 + 1]].
+Proof. vm_compute. reflexivity. Qed.
+
+(** exactly at ExpiresAt the lease is NOT expired (time.Now().After(ExpiresAt) is false):
+    B is refused, A's renew goes through *)
+Example lease_run_boundary_not_expired :
+  lease_run (SL [cl2 [0; 1] [0]; SL [SA 0; SA 0; tick s10; SA 1; SA 1; SA 0]])
+  = SL [SL [SL [SA 0; SA 0; sxl [0; 1; 1; s10]; SA 0];
+            SL [SA 1; SA 0; sxl [1; 1; s10]; SA s10];
+            SL [SA 0; SA 1; sxl [0; 1; 1; s10]; SA s10]];
+        sxl [1; 1; s10]].
 Proof. vm_compute. reflexivity. Qed.
 
 (** the oracles reject what the property forbids *)
 Example oracle_rejects :
-  (* two live holders *)
-  lease_mutex_ok (SL [SL [SL [SA 0; SA 0; sxl [0; 1; 1; 1]]; SL [SA 1; SA 0; sxl [0; 2; 2; 1]]]]) = SA 2 /\
+  (* B acquires at 8 s while A's lease runs until 10 s: two unexpired holders at that instant *)
+  lease_mutex_ok (SL [SL [SL [SA 0; SA 0; sxl [0; 1; 1; s10]; SA 0]; SL [SA 1; SA 0; sxl [0; 2; 2; 18000000000]; SA 8000000000]]]) = SA 2 /\
+  (* ... and exactly at ExpiresAt A's lease is still unexpired *)
+  lease_mutex_ok (SL [SL [SL [SA 0; SA 0; sxl [0; 1; 1; s10]; SA 0]; SL [SA 1; SA 0; sxl [0; 2; 2; 2 * s10]; SA s10]]]) = SA 2 /\
+  (* 1 ns later it is fine *)
+  lease_mutex_ok (SL [SL [SL [SA 0; SA 0; sxl [0; 1; 1; s10]; SA 0]; SL [SA 1; SA 0; sxl [0; 2; 2; 2 * s10 + 1]; SA (s10 + 1)]]]) = SA 1 /\
   (* a taken-over client renews successfully *)
-  lease_mutex_ok (SL [SL [SL [SA 0; SA 0; sxl [0; 1; 1; 0]]; SL [SA 1; SA 0; sxl [0; 2; 2; 0]]; SL [SA 0; SA 1; sxl [0; 1; 1; 0]]]]) = SA 3 /\
+  lease_mutex_ok (SL [SL [SL [SA 0; SA 0; sxl [0; 1; 1; s10]; SA 0]; SL [SA 1; SA 0; sxl [0; 2; 2; 5]; SA (s10 + 1)];
+                          SL [SA 0; SA 1; sxl [0; 1; 1; 2 * s10 + 1]; SA (s10 + 1)]]]) = SA 3 /\
   (* takeover without a generation increase *)
-  lease_mutex_ok (SL [SL [SL [SA 0; SA 0; sxl [0; 1; 1; 0]]; SL [SA 1; SA 0; sxl [0; 1; 2; 0]]]]) = SA 4 /\
-  lease_gen_strict_ok (SL [SL [SL [SA 0; SA 0; sxl [0; 1; 1; 0]]; SL [SA 1; SA 0; sxl [0; 1; 2; 0]]]]) = SA 0.
+  lease_mutex_ok (SL [SL [SL [SA 0; SA 0; sxl [0; 1; 1; s10]; SA 0]; SL [SA 1; SA 0; sxl [0; 1; 2; 2 * s10 + 1]; SA (s10 + 1)]]]) = SA 4 /\
+  lease_gen_strict_ok (SL [SL [SL [SA 0; SA 0; sxl [0; 1; 1; s10]; SA 0]; SL [SA 1; SA 0; sxl [0; 1; 2; 2 * s10 + 1]; SA (s10 + 1)]]]) = SA 0.
 Proof. repeat split; vm_compute; reflexivity. Qed.
